@@ -212,7 +212,23 @@ func checkC02(h *hx.H, c c02Case) {
 				h.FailSoft(sg("segment-reparse-error"), "segment %q: covered source %q does not parse as a key: %v", sn.ScalarString(), src, err)
 				continue
 			}
-			if len(kp2.Path) != 1 || kp2.Path[0].Unbox().ScalarString() != sn.ScalarString() {
+			same := len(kp2.Path) == 1 && kp2.Path[0].Unbox().ScalarString() == sn.ScalarString()
+			if _, blk := sn.(*d2ast.BlockString); blk && len(kp2.Path) == 1 && !same {
+				// text on the opening line of a block string is given an implicit indent of two
+				// spaces per nesting level (parseBlockString: getIndent), so the value of a
+				// multi-line block string depends on how deeply it is nested, which the covered
+				// source alone does not carry: compare modulo that leading indent
+				// (and the common-indent trimming that follows sees a different first line)
+				unindent := func(v string) string {
+					ls := strings.Split(v, "\n")
+					for i := range ls {
+						ls[i] = strings.TrimLeft(ls[i], " \t")
+					}
+					return strings.Join(ls, "\n")
+				}
+				same = unindent(kp2.Path[0].Unbox().ScalarString()) == unindent(sn.ScalarString())
+			}
+			if !same {
 				var got []string
 				for _, x := range kp2.Path {
 					got = append(got, x.Unbox().ScalarString())
